@@ -64,7 +64,31 @@ func cmdSelftest(args []string) int {
 				continue
 			}
 			mut := strings.Replace(string(src), m.Old, m.New, 1)
-			r := runProve(proveOpts{prop: m.Property, tier: "quick", overlay: map[string][]byte{path: []byte(mut)}, quiet: true, noEvidence: true})
+			// a mutant changes the obligations of its own package (callers elsewhere use
+			// contracts): check that package first, the whole property only if nothing was hit
+			pkgPath := repoModule
+			if d := filepath.Dir(m.File); d != "." {
+				pkgPath = repoModule + "/" + filepath.ToSlash(d)
+			}
+			hitIn := func(r proveResult) bool {
+				for _, fo := range r.failed {
+					for _, ex := range m.Expect {
+						if strings.Contains(fo, ex) {
+							return true
+						}
+					}
+				}
+				return false
+			}
+			var r proveResult
+			if !m.MustPass && os.Getenv("GVC_SELFTEST_FULL") == "" {
+				noRetryPhase = true
+				r = runProve(proveOpts{prop: m.Property, tier: "quick", overlay: map[string][]byte{path: []byte(mut)}, quiet: true, noEvidence: true, onlyPkg: pkgPath, onlyFile: path})
+				noRetryPhase = false
+			}
+			if m.MustPass || os.Getenv("GVC_SELFTEST_FULL") != "" || !hitIn(r) {
+				r = runProve(proveOpts{prop: m.Property, tier: "quick", overlay: map[string][]byte{path: []byte(mut)}, quiet: true, noEvidence: true})
+			}
 			if m.MustPass {
 				if r.code != 0 {
 					fmt.Printf("SELFTEST-FAIL %s (must pass): %v\n", m.Name, r.lines)
